@@ -247,6 +247,10 @@ func checkGrammar(r *ev.Run, g *gram, family string, n int, extra [][]string, ex
 		r.Add("rejected_by_spec_parse_left_to_C07", 1)
 		return
 	}
+	if t == nil && terr == nil {
+		r.Report("", fmt.Sprintf("Spec.LALRParsingTable returns neither a table nor an error\n%s", text), in)
+		return
+	}
 	// observation at the command line: the tool must end the way the library does - a table error (conflict report)
 	// means a non-zero exit status with the report on stderr, a table means the package is announced
 	cliCalls++
